@@ -398,7 +398,7 @@ fn locus(c: &Case) -> String {
 }
 
 pub fn run(cfg: &Cfg, rep: &mut Report) {
-  let total = cfg.n(120_000, 30_000_000);
+  let total = cfg.n(600_000, 30_000_000);
   let maxi = cfg.n(5, 9);
   let mut rng = Rng::new(cfg.seed ^ 0xC09);
   for i in 0..total {
